@@ -101,6 +101,7 @@ func VerifC13_Grammar() {
 	n := zzverif.IntRange("len", 0, zzverif.Bound("N", 5, 7))
 	text := zzverif.Bytes("text", n)
 	want := refNumberGrammar(text)
+	zzverif.Known("C13-zero-mantissa-exponent", zeroMantissaWithExponent(text))
 	num, err := NewNumber(bytes.NewBytes(text))
 	zzverif.Assert((err == nil) == want, "accept iff JSON number grammar")
 	if err == nil {
@@ -108,5 +109,239 @@ func VerifC13_Grammar() {
 		zzverif.Assert(num != nil, "accepted number is non-nil")
 	} else {
 		zzverif.Reach("rejected")
+	}
+}
+
+// zeroMantissaWithExponent: -?0[eE]…  (known finding: rejected by NewNumber,
+// pinned by the repository's own negative tests "0e0", "0e2").
+func zeroMantissaWithExponent(b []byte) bool {
+	i := 0
+	if len(b) > 0 && b[0] == '-' {
+		i = 1
+	}
+	return len(b) >= i+2 && b[i] == '0' && (b[i+1] == 'e' || b[i+1] == 'E')
+}
+
+// parseRef splits an accepted number text per the grammar.
+func parseRef(b []byte) (neg bool, intDigits, fraDigits []byte, expNeg bool, expDigits []byte) {
+	i := 0
+	if i < len(b) && b[i] == '-' {
+		neg = true
+		i++
+	}
+	st := i
+	for i < len(b) && b[i] >= '0' && b[i] <= '9' {
+		i++
+	}
+	intDigits = b[st:i]
+	if i < len(b) && b[i] == '.' {
+		i++
+		st = i
+		for i < len(b) && b[i] >= '0' && b[i] <= '9' {
+			i++
+		}
+		fraDigits = b[st:i]
+	}
+	if i < len(b) && (b[i] == 'e' || b[i] == 'E') {
+		i++
+		if i < len(b) && (b[i] == '+' || b[i] == '-') {
+			expNeg = b[i] == '-'
+			i++
+		}
+		expDigits = b[i:]
+	}
+	return
+}
+
+func smallInt(d []byte) int {
+	r := 0
+	for _, c := range d {
+		r = r*10 + int(c-'0')
+	}
+	return r
+}
+
+// numberInv is the representation invariant of Number (DESIGN.md C13.2):
+// digits only, 0 <= exp <= len(nat), no leading zero in the integer part,
+// no trailing zero in the fraction, zero is the empty digit string without sign.
+func numberInv(n *Number) bool {
+	d := n.nat.Data()
+	for _, c := range d {
+		if c < '0' || c > '9' {
+			return false
+		}
+	}
+	if n.exp < 0 || n.exp > len(d) {
+		return false
+	}
+	if len(d)-n.exp > 0 && d[0] == '0' {
+		return false
+	}
+	if n.exp > 0 && d[len(d)-1] == '0' {
+		return false
+	}
+	if len(d) == 0 && n.neg {
+		return false // zero has no sign
+	}
+	return true
+}
+
+// VerifC13_Denotation: for every accepted text the Number denotes the value of
+// the text and satisfies the representation invariant; String() denotes the
+// same value and LengthOfFractionalPart() is the number of significant
+// fraction digits.
+func VerifC13_Denotation() {
+	zzverif.Expect("accepted", "with-exponent", "with-fraction")
+	n := zzverif.IntRange("len", 1, zzverif.Bound("N", 5, 7))
+	text := zzverif.Bytes("text", n)
+	num, err := NewNumber(bytes.NewBytes(text))
+	if err != nil {
+		return
+	}
+	zzverif.Reach("accepted")
+	zzverif.Assume(refNumberGrammar(text))
+	neg, id, fd, eneg, ed := parseRef(text)
+	if len(ed) > 0 {
+		zzverif.Reach("with-exponent")
+	}
+	if len(fd) > 0 {
+		zzverif.Reach("with-fraction")
+	}
+	e := smallInt(ed)
+	if eneg {
+		e = -e
+	}
+	zzverif.Assert(numberInv(num), "representation invariant")
+	// value(text) = M * 10^(e-f);  value(num) = NAT * 10^(-exp)
+	mant := make([]byte, 0, len(id)+len(fd))
+	mant = append(append(mant, id...), fd...)
+	M := zzverif.IntOfDigits(mant)
+	NAT := zzverif.IntOfDigits(num.nat.Data())
+	sh := e - len(fd) + num.exp // M*10^(sh) == NAT
+	if sh >= 0 {
+		zzverif.Assert(M.MulPow10(sh).Eq(NAT), "denoted magnitude equals the text's")
+	} else {
+		zzverif.Assert(M.Eq(NAT.MulPow10(-sh)), "denoted magnitude equals the text's")
+	}
+	isZero := M.Eq(zzverif.IntConst(0))
+	zzverif.Assert(isZero || num.neg == neg, "sign equals the text's")
+	zzverif.Assert(int(num.LengthOfFractionalPart()) == num.exp, "LengthOfFractionalPart is the significant fraction length")
+	// String(): [-] int [. fra] re-read with the reference
+	str := []byte(num.String())
+	zzverif.Assert(refNumberGrammar(str), "String() is a JSON number")
+	sneg, sid, sfd, _, sed := parseRef(str)
+	zzverif.Assert(len(sed) == 0, "String() has no exponent")
+	smant := make([]byte, 0, len(sid)+len(sfd))
+	smant = append(append(smant, sid...), sfd...)
+	S := zzverif.IntOfDigits(smant)
+	// S*10^-len(sfd) == NAT*10^-exp
+	if len(sfd) >= num.exp {
+		zzverif.Assert(S.Eq(NAT.MulPow10(len(sfd)-num.exp)), "String() denotes the same magnitude")
+	} else {
+		zzverif.Assert(S.MulPow10(num.exp-len(sfd)).Eq(NAT), "String() denotes the same magnitude")
+	}
+	zzverif.Assert(isZero || sneg == num.neg, "String() has the same sign")
+}
+
+func sign3(lt, eq bool) int {
+	if eq {
+		return 0
+	}
+	if lt {
+		return -1
+	}
+	return 1
+}
+
+// mkNumber builds an arbitrary Number state of at most L digits.
+func mkNumber(tag string, L int) *Number {
+	ln := zzverif.IntRange(tag+".len", 0, L)
+	d := make([]byte, ln)
+	for i := range d {
+		d[i] = zzverif.Digit(tag + ".d")
+	}
+	exp := zzverif.IntRange(tag+".exp", 0, ln)
+	n := &Number{nat: bytes.NewBytes(d), exp: exp, neg: zzverif.Bool(tag + ".neg")}
+	zzverif.Assume(numberInv(n))
+	return n
+}
+
+// VerifC13_Compare: one step from an arbitrary valid state. Cmp, Equal and the
+// four predicates agree with exact arithmetic on the denoted values, for all
+// pairs of Numbers satisfying the invariant (which NewNumber establishes, see
+// VerifC13_Denotation).
+func VerifC13_Compare() {
+	zzverif.Expect("lt", "eq", "gt")
+	L := zzverif.Bound("L", 3, 5)
+	a := mkNumber("a", L)
+	b := mkNumber("b", L)
+	A := zzverif.IntOfDigits(a.nat.Data()).MulPow10(b.exp)
+	B := zzverif.IntOfDigits(b.nat.Data()).MulPow10(a.exp)
+	if a.neg {
+		A = A.Neg()
+	}
+	if b.neg {
+		B = B.Neg()
+	}
+	want := sign3(A.Lt(B), A.Eq(B))
+	got := a.Cmp(b)
+	zzverif.Assert(got == want, "Cmp agrees with exact arithmetic")
+	zzverif.Assert(a.Equal(b) == (want == 0), "Equal")
+	zzverif.Assert(a.LessThan(b) == (want < 0), "LessThan")
+	zzverif.Assert(a.LessThanOrEqual(b) == (want <= 0), "LessThanOrEqual")
+	zzverif.Assert(a.GreaterThan(b) == (want > 0), "GreaterThan")
+	zzverif.Assert(a.GreaterThanOrEqual(b) == (want >= 0), "GreaterThanOrEqual")
+	switch want {
+	case -1:
+		zzverif.Reach("lt")
+	case 0:
+		zzverif.Reach("eq")
+	default:
+		zzverif.Reach("gt")
+	}
+}
+
+// VerifC13_ExponentRange: concrete exponents (small, multi-digit, 19-20 digits
+// that overflow machine integers) around a symbolic one-digit mantissa:
+// NewNumber returns a value or an error (never panics), and an accepted text
+// denotes its value.
+func VerifC13_ExponentRange() {
+	zzverif.Expect("accepted", "rejected")
+	exps := []string{"0", "1", "9", "10", "20", "300", "-1", "-10", "-300", "+7",
+		"99999999999999999", "9999999999999999999", "-9999999999999999999",
+		"18446744073709551617", "18446744073709551616", "-18446744073709551617", "9223372036854775808"}
+	k := zzverif.IntRange("exp", 0, len(exps)-1)
+	d := zzverif.Digit("d")
+	zzverif.Assume(d != '0')
+	withFrac := zzverif.Bool("frac")
+	text := []byte{d}
+	if withFrac {
+		text = append(text, '.', zzverif.Digit("f"))
+	}
+	text = append(text, 'e')
+	text = append(text, exps[k]...)
+	num, err := NewNumber(bytes.NewBytes(text))
+	if err != nil {
+		zzverif.Reach("rejected")
+		// only exponents whose expansion is unreasonable may be refused
+		zzverif.Assert(len(exps[k]) >= 17, "small exponents are accepted")
+		return
+	}
+	zzverif.Reach("accepted")
+	zzverif.Assert(numberInv(num), "representation invariant")
+	zzverif.Assert(len(exps[k]) < 17, "an exponent that does not fit is not silently wrapped")
+	_, id, fd, eneg, ed := parseRef(text)
+	e := smallInt(ed)
+	if eneg {
+		e = -e
+	}
+	mant := append(append([]byte{}, id...), fd...)
+	M := zzverif.IntOfDigits(mant)
+	NAT := zzverif.IntOfDigits(num.nat.Data())
+	sh := e - len(fd) + num.exp
+	if sh >= 0 {
+		zzverif.Assert(M.MulPow10(sh).Eq(NAT), "denoted magnitude equals the text's")
+	} else {
+		zzverif.Assert(M.Eq(NAT.MulPow10(-sh)), "denoted magnitude equals the text's")
 	}
 }
